@@ -212,5 +212,42 @@ Proof. vm_compute. reflexivity. Qed.
 Lemma c10_repaired_F21 : let pg := mkPage [Entry 1] (mkRes 0 [CPaged 0 [x01]]) in let pg2 := mkPage [Entry 2; Entry 3] (mkRes 0 [CPaged 0 []]) in
   match start 7 [] 1 [pg; pg2] with Some s0 => let '(_, s') := take_items true 2 s0 in snd (fst (finish s')) = cancelled /\ st s' = Active | None => False end.
 Proof. vm_compute. split; reflexivity. Qed.
+
+(* ---- chained behind EntriesOnly (adapters = [EntriesOnly, PagedResults]) ----
+   EntriesOnly::next loops over the next adapter's next(): intermediate messages are dropped, the URIs of reference messages are collected
+   (and added to the final result's referral list by EntriesOnly::finish), entries are handed on. Read to the end, the two nested loops -
+   the caller's and the adapter's - are one loop over the paged stream: *)
+Fixpoint eo_drain (fx : bool) (fuel : nat) (s : stream) (refs : list nat) : list nat * list nat * stream :=
+  match fuel with O => ([], refs, s) | S f =>
+    match next fx (S (length (server s))) s with
+    | (s', NSome (Entry k)) => let '(l, r, s'') := eo_drain fx f s' refs in (k :: l, r, s'')
+    | (s', NSome (Ref k)) => eo_drain fx f s' (refs ++ [k])
+    | (s', NSome (Inter _)) => eo_drain fx f s' refs
+    | (s', _) => ([], refs, s') end end.
+Definition entries_of (l : list item) : list nat := flat_map (fun it => match it with Entry k => [k] | _ => [] end) l.
+Definition refs_of (l : list item) : list nat := flat_map (fun it => match it with Ref k => [k] | _ => [] end) l.
+Lemma eo_drain_spec fx : forall fuel s refs,
+  eo_drain fx fuel s refs = let (l, s') := drain fx fuel s in (entries_of l, refs ++ refs_of l, s').
+Proof.
+  induction fuel as [|f IH]; intros s refs; cbn [eo_drain drain]; [cbn; now rewrite app_nil_r|].
+  destruct (next fx (S (length (server s))) s) as [s1 [it| |]].
+  - destruct it as [k|k|k]; rewrite IH; destruct (drain fx f s1) as [l s2]; cbn [entries_of refs_of flat_map app]; try reflexivity.
+    now rewrite <- app_assoc.
+  - cbn. now rewrite app_nil_r.
+  - cbn. now rewrite app_nil_r.
+Qed.
+(* C16 behind EntriesOnly: exactly the entries of all pages, in order, each once; the reference URIs of all pages collected in order; the
+   stream Done with the last page's result without the paging control; the same requests on the wire *)
+Theorem c16_behind_entries_only fx params user_ctrls size p rest s0 :
+  start params user_ctrls size (p :: rest) = Some s0 -> wf_script (p_result p) rest ->
+  exists s', eo_drain fx (S (length (flat_map p_items (p :: rest)) + length (p :: rest))) s0 [] =
+               (entries_of (flat_map p_items (p :: rest)), refs_of (flat_map p_items (p :: rest)), s') /\
+    st s' = Done /\ res s' = Some (final_of (last_result (p_result p) rest)) /\
+    wire s' = mkReq params (user_ctrls ++ [CPaged size []]) :: followups params user_ctrls size (p_result p) rest.
+Proof.
+  intros Hs Hwf. destruct (c16 fx params user_ctrls size p rest s0 Hs Hwf) as (s' & Hd & Hst & Hres & Hw).
+  exists s'. rewrite eo_drain_spec, Hd. cbn [app]. repeat split; assumption.
+Qed.
 Print Assumptions c16.
 Print Assumptions c10_paged_early_finish.
+Print Assumptions c16_behind_entries_only.
